@@ -315,10 +315,17 @@ impl Property for C15 {
         }
         unit
     }
+    fn shrinks(&self, c: &Value) -> bool {
+        // macro invocations are rendered into a crate of their own: not shrunk
+        c["front"] != "macro"
+    }
     fn in_domain(&self, c: &Value) -> bool {
         // option lists are atomic (an option and its value belong together);
         // only the document shrinks
-        c["front"] != "macro" && c["front"].is_string() && c["args"].is_array() && c["doc"].is_object() && {
+        if c["front"] == "macro" {
+            return c["opts"].is_array() && c["doc"].is_object();
+        }
+        c["front"].is_string() && c["args"].is_array() && c["doc"].is_object() && {
             let args: Vec<&str> = c["args"].as_array().map(|a| a.iter().filter_map(|x| x.as_str()).collect()).unwrap_or_default();
             let mut i = 0;
             let mut ok = true;
